@@ -4,11 +4,11 @@ from hypothesis import strategies as st
 from .. import runner, sut
 
 ID = "C11"
-RULE = ("Generated operation sequences (up to 50 steps, up to 4 evaluators) over an alphabet of 13 valid texts (same experiment "
+RULE = ("Generated operation sequences (up to 50 steps, up to 4 evaluators) over an alphabet of 17 valid texts (same experiment "
         "name with different weights / groups, different names, different fields, a trivia variant of the same program, pairs that differ only in whitespace inside a string literal or after a // comment) and 11 "
         "invalid texts (syntactic: truncated, missing brace, two definitions, trailing junk; lexical: illegal character, unterminated block comment): "
         "new(valid), new(invalid), recompile(valid), recompile(current text), recompile(invalid) - also immediately repeated - "
-        "and call. Model: each evaluator = 'a fresh evaluator built from the last text it accepted'. After EVERY step every "
+        "recompile(grammatical text whose generated code does not compile today - known finding K1: must change nothing if it raises) and call. Model: each evaluator = 'a fresh evaluator built from the last text it accepted'. After EVERY step every "
         "evaluator is compared with its model on a fixed probe set (so an effect on another evaluator is seen); invalid texts "
         "must raise every time and change nothing. Non-trivial = history containing a failed recompile followed by a further "
         "operation on the same evaluator; distinct by operation sequence.")
@@ -32,6 +32,11 @@ VALID = [
     'def ws { salt: "s  1" splitters: uid return "A" weighted 1, "B" weighted 1, "C" weighted 1, "D" weighted 1 }',
     'def ws { splitters: uid if plan == "pro" { return "A B" weighted 1 } else { return "A  B" weighted 1 } }',
     'def ws { splitters: uid if plan == "pro" { return "A  B" weighted 1 } else { return "A B" weighted 1 } }',
+    # pairs that differ only after a // (or inside a /* */) that sits INSIDE a string literal
+    'def url { salt: "https://exp.example/a" splitters: uid return "A" weighted 1, "B" weighted 1, "C" weighted 1, "D" weighted 1 }',
+    'def url { salt: "https://exp.example/b" splitters: uid return "A" weighted 1, "B" weighted 1, "C" weighted 1, "D" weighted 1 }',
+    'def url { splitters: uid return "x /* 1 */" weighted 1, "y" weighted 1 }',
+    'def url { splitters: uid return "x /* 2 */" weighted 1, "y" weighted 1 }',
     # a // comment ended by a line break (valid); INVALID[8] is the same text with that line break turned into a blank
     'def exp { splitters: uid // two arms\n return "A" weighted 1, "B" weighted 3 }',
 ]
@@ -49,14 +54,25 @@ INVALID = [
     'def exp { splitters: uid return "A" weighted 1, "B" weighted 1 /* forgot to close }',
     'def exp { splitters: uid /* open return "A" weighted 1 }',
 ]
+# grammatical texts whose generated code does not compile today (known finding K1): whatever happens, a recompile that
+# raises must change nothing, one that succeeds must switch completely
+MAYBE = [
+    'def lambda { splitters: uid return "A" weighted 1, "B" weighted 1 }',
+    'def exp { splitters: uid, class return "A" weighted 1, "B" weighted 1 }',
+    'def other { splitters: uid if is == 1 { return "A" weighted 1 } else { return "B" weighted 1 } }',
+]
 PROBES = [{"uid": "u%d" % i, "plan": p} for i in range(1, 9) for p in ("pro", "free")]
 
 _FRESH = {}
 
 
+def _text_of(ti):
+    return MAYBE[int(ti[5:])] if isinstance(ti, str) else VALID[ti]
+
+
 def _fresh(ti):
     if ti not in _FRESH:
-        res = sut.compile_text(VALID[ti])
+        res = sut.compile_text(_text_of(ti))
         if res[0] != "ok":
             raise RuntimeError("valid text %d does not compile: %r" % (ti, res))
         ev = res[1]
@@ -70,7 +86,7 @@ def histories(draw):
     ops = [["new", draw(st.integers(0, len(VALID) - 1))]]
     for _ in range(n):
         k = draw(st.sampled_from(["new", "new_invalid", "recompile", "recompile", "recompile_same", "recompile_invalid",
-                                  "recompile_invalid", "repeat_invalid", "call", "call"]))
+                                  "recompile_invalid", "repeat_invalid", "call", "call", "recompile_maybe"]))
         e = draw(st.integers(0, 3))
         if k == "new":
             ops.append(["new", draw(st.integers(0, len(VALID) - 1))])
@@ -82,6 +98,8 @@ def histories(draw):
             ops.append(["recompile_same", e])
         elif k == "recompile_invalid":
             ops.append(["recompile_invalid", e, draw(st.integers(0, len(INVALID) - 1))])
+        elif k == "recompile_maybe":
+            ops.append(["recompile_maybe", e, draw(st.integers(0, len(MAYBE) - 1))])
         elif k == "repeat_invalid":
             t = draw(st.integers(0, len(INVALID) - 1))
             ops.append(["recompile_invalid", e, t])
@@ -105,7 +123,7 @@ def judge(case):
             if got != _fresh(model[i]):
                 bad = next(j for j in range(len(PROBES)) if got[j] != _fresh(model[i])[j])
                 viol.append("after step %d %r: evaluator #%d should behave like a fresh evaluator of text %d (%r) but probe %r gives "
-                            "%r instead of %r" % (step, op, i, model[i], VALID[model[i]][:60], PROBES[bad], got[bad], _fresh(model[i])[bad]))
+                            "%r instead of %r" % (step, op, i, model[i], _text_of(model[i])[:60], PROBES[bad], got[bad], _fresh(model[i])[bad]))
                 return False
         return True
 
@@ -143,7 +161,7 @@ def judge(case):
                     break
             elif kind == "recompile_same":
                 try:
-                    evs[i].recompile(VALID[model[i]])
+                    evs[i].recompile(_text_of(model[i]))
                 except Exception as e:
                     viol.append("step %d: recompiling the current text raised %s: %s" % (step, type(e).__name__, e))
                     break
@@ -155,6 +173,23 @@ def judge(case):
                     break
                 except Exception:
                     failed_on.add(i)
+            elif kind == "recompile_maybe":
+                try:
+                    evs[i].recompile(MAYBE[op[2]])
+                    ok = True
+                except Exception:
+                    ok = False
+                    failed_on.add(i)
+                if ok:
+                    # accepted: from now on the evaluator must behave like a fresh one of that text
+                    key = "maybe%d" % op[2]
+                    if key not in _FRESH:
+                        r = sut.compile_text(MAYBE[op[2]])
+                        if r[0] != "ok":
+                            viol.append("step %d: recompile accepted %r but a fresh evaluator rejects it" % (step, MAYBE[op[2]]))
+                            break
+                        _FRESH[key] = [sut.call(r[1], p) for p in PROBES]
+                    model[i] = key
             elif kind == "call":
                 got = sut.call(evs[i], PROBES[op[2]])
                 if got != _fresh(model[i])[op[2]]:
